@@ -30,7 +30,7 @@ Theorem C19_audit_test : forall c s s' o,
   step c s ILoopAuditCheck = Some (s', o) ->
   loop s = LIdle /\ t_pending (tk_audit s) = true /\ t_pending (tk_audit s') = false
   /\ target s' = target s /\ tokens s' = tokens s /\ buffer s' = buffer s /\ batches s' = batches s
-  /\ ((o = [OEvAuditSkip] /\ loop s' = LIdle /\ (buffer s <> [] \/ idle_long_enough c s = false))
+  /\ ((o = [OEvAuditSkip] /\ loop s' = after_event s (c_busy_audit c) /\ (buffer s <> [] \/ idle_long_enough c s = false))
       \/ (o = [] /\ loop s' = LAuditPending /\ buffer s = [] /\ idle_long_enough c s = true)).
 Proof. exact audit_check_effect. Qed.
 Print Assumptions C19_audit_test.
@@ -57,7 +57,7 @@ Print Assumptions C19_default_interval.
 (* the reset: audit-pass exactly when both figures are zero, and then nothing changes *)
 Theorem C19_audit_reset : forall c s s' o,
   step c s ILoopAuditConfirm = Some (s', o) ->
-  loop s = LAuditPending /\ loop s' = LIdle /\ target s' = 0
+  loop s = LAuditPending /\ loop s' = after_event s (c_busy_audit c) /\ target s' = 0
   /\ (c_gen c = V2 -> tokens s' = 0%nat) /\ (c_gen c = V1 -> tokens s' = tokens s)
   /\ buffer s' = buffer s /\ batches s' = batches s /\ counted s' = counted s
   /\ let tbad := 0 <? target s in
@@ -104,7 +104,7 @@ Proof. exact stale_target_is_reset. Qed.
 Print Assumptions C19_stale_figure_is_reset.
 
 (* ---- D7: "raises only audit-pass or audit-skip in a healthy execution" is false of the code ---- *)
-Definition d7_cfg : cfg := mkCfg V2 4 false false 0 0 (10 * ms) (5 * ms) 0 0 [mkW 0 0 0].
+Definition d7_cfg : cfg := mkCfg V2 4 false false 0 0 (10 * ms) (5 * ms) 0 0 [mkW 0 0 0] 0 0.
 Definition d7_labels : list label :=
   [AStart; AEnqueue (mkE false (Some 0%nat) 1 7 7 true 0 true);
    TAdvance (10 * ms); ITick TkAudit; ILoopAuditCheck; ILoopAuditConfirm; ARelease 0; IEnqInsert 0].
@@ -127,7 +127,7 @@ Proof. split; reflexivity. Qed.
 
 (* non-vacuity: a stale figure (an operation whose reported cost shrank between enqueue and completion)
    is found and repaired by the first audit after the idle period *)
-Definition st_cfg : cfg := mkCfg V2 4 false false 0 0 (300 * ms) (50 * ms) 0 0 [mkW 0 0 0].
+Definition st_cfg : cfg := mkCfg V2 4 false false 0 0 (300 * ms) (50 * ms) 0 0 [mkW 0 0 0] 0 0.
 Definition st_labels : list label :=
   [AStart; AEnqueue (mkE false (Some 0%nat) 1 9 4 false (10 * ms) false); IEnqInsert 0;
    TAdvance (100 * ms); ITick TkFlush; ITick TkCap; ILoopCap; ILoopFlushTick; ICycleBegin; ICycleVisit; ICycleVisit; ICycleEnd;
